@@ -50,6 +50,32 @@ def M2(p):
     return p[0] ** 2 - p[1] ** 2 - p[2] ** 2 - p[3] ** 2
 
 
+def check_cross_unit_scale(repo, chk):
+    """the parallel-vector fallback of Vector3.cross_unit must only trigger for (numerically) parallel vectors: its
+    guard compares the NORM of the cross product with the tolerance, so small momenta (keV-scale systems in GeV) keep
+    their true normal"""
+    chk.rule("E6-scale", "Vector3.cross_unit evaluated on exact rational vectors of length 1e-5 at right angles (|a x b| = 1e-10, far above the 1e-14 tolerance): the result is the true unit normal, not the fallback direction; for exactly parallel vectors the fallback is used")
+    fn = repo.fn("tf_pwa/angle.py::Vector3.cross_unit")
+    R = sp.Rational
+    eps = R(1, 100000)
+    tr = Translator(repo, where_policy=lambda cond, t: None, hooks={"stack_as_array": True}, max_depth=3)
+    cases = [
+        (np.array([eps, 0, 0], dtype=object), np.array([0, eps, 0], dtype=object), [0, 0, 1], "perpendicular, length 1e-5"),
+        (np.array([0, eps * 3, 0], dtype=object), np.array([eps * 4, 0, 0], dtype=object), [0, 0, -1], "perpendicular, lengths 3e-5 / 4e-5"),
+        (np.array([R(1), R(2), R(2)], dtype=object), np.array([R(2), R(-2), R(1)], dtype=object), [R(2, 3), R(1, 3), R(-2, 3)], "perpendicular, length 3"),
+    ]
+    for a, b, want, label in cases:
+        try:
+            out = tr.call_fn(fn, [b], {}, self_obj=a) if False else tr.call_fn(fn, [a, b])
+        except Unmodelled as e:
+            raise AnalysisError("Vector3.cross_unit cannot be evaluated on rational vectors: %s" % e)
+        got = [sp.nsimplify(sp.simplify(x)) for x in np.asarray(out, dtype=object).reshape(-1)]
+        ok = len(got) == 3 and all(sp.simplify(g - sp.sympify(w)) == 0 for g, w in zip(got, want))
+        chk.oblige("E6-scale", "cross_unit (%s) == %s" % (label, want), ok)
+        if not ok:
+            chk.violation("E6-scale", fn.key, "normal:" + label.split(",")[0] + label[-6:], "cross_unit of two %s vectors gives %s instead of the unit normal %s: the parallel-vector fallback is taken although the vectors are not parallel (the guard does not compare the norm of the cross product with the tolerance) - helicity angles of low-momentum systems come out wrong" % (label, got, want), file="tf_pwa/angle.py", line=fn.lineno)
+
+
 def check_mass_table(repo, chk):
     """HelicityAngle.get_all_mass: a replaced mass holds for that call only (round-3 seed)"""
     from ..sym import PyFunc, SelfObj
@@ -214,6 +240,12 @@ def run(repo, chk, tier, parts=("dalitz", "boost", "helicity", "frame")):
         check_frame_typing(repo, chk)
     if len(parts) == 4:
         check_mass_table(repo, chk)
+        from ..cacheown import check_iteration_order_agreement
+
+        # build_data consumes the angles position by position, find_variable produces them: same traversal of the chain
+        check_iteration_order_agreement(repo, chk, ["tf_pwa/data_trans/helicity_angle.py"])
+    if "helicity" in parts:
+        check_cross_unit_scale(repo, chk)
     chk.extra["kernels_inlined"] = sorted(tr.inlined)
     chk.extra["domain_assumptions_used"] = sorted(set(tr.assumed))[:10]
     chk.info("not decided as a whole: helicity-angle round trip over decay topologies (cal_helicity_angle / HelicityAngle.build_data): data-dependent frame bookkeeping")
